@@ -4,15 +4,18 @@ CONSTANTS MAXREQ, DEPTH
 VARIABLES t, resp, consumed, hist, res
 vars == <<t, resp, consumed, hist, res>>
 Reset == [o |-> "reset", mode |-> "ip4", filter |-> "all"]
-Init == t = T0 /\ resp = <<>> /\ consumed = <<>> /\ hist = <<Reset>> /\ res = [t |-> T0, ret |-> "ok", out |-> <<>>]
-Ops == (IF t.n < MAXREQ THEN {[o |-> "request_in", peer |-> "p4", n |-> t.n + 1, body |-> [t |-> "talk"]]} ELSE {})
+\* p1 is known to the node (its record, advertising p1.v4, is in the routing table), p4 is a stranger; either may send from its
+\* advertised socket or from another one ("other": NAT rebinding, stale record)
+Known == [o |-> "add_enr", rec |-> "p1:1:v4"]
+Init == t = T0 /\ resp = <<>> /\ consumed = <<>> /\ hist = <<Reset, Known>> /\ res = [t |-> T0, ret |-> "ok", out |-> <<>>]
+Ops == (IF t.n < MAXREQ THEN {[o |-> "request_in", peer |-> p, from |-> f, n |-> t.n + 1, body |-> [t |-> "talk"]] : p \in {"p1", "p4"}, f \in {"v4", "other"}} ELSE {})
        \cup {[o |-> "talk_respond", tr |-> k] : k \in t.held} \cup {[o |-> "talk_drop", tr |-> k] : k \in t.held}
        \cup (IF t.running THEN {[o |-> "shutdown"]} ELSE {})
 Do(op) == /\ res' = TStep(t, op) /\ t' = res'.t
           /\ resp' = resp \o res'.out
           /\ consumed' = IF op.o \in {"talk_respond", "talk_drop"} THEN Append(consumed, [tr |-> op.tr, how |-> op.o, running |-> t.running]) ELSE consumed
           /\ hist' = Append(hist, op)
-MCNext == IF DEPTH > 0 THEN \E op \in {RandomElement(Ops)} : Do(op) ELSE \E op \in Ops : Do(op)
+MCNext == IF DEPTH > 0 THEN Ops # {} /\ \E op \in {RandomElement(Ops)} : Do(op) ELSE \E op \in Ops : Do(op)
 Spec == Init /\ [][MCNext]_vars
 View == <<t, resp, consumed>>
 \* C20 on the design
